@@ -196,7 +196,10 @@ func (w *vhWorld) vhAnyRequest(nRepos, nMethods int) *vhReq {
 			}
 		case "PUT":
 			docs := [][]byte{w.img1, w.img2, w.art1, w.idx1, []byte("{"), []byte("[]"),
-				vhImage(vhDesc(types.MediaTypeOCI1ImageConfig, w.conf), []types.Descriptor{vhDesc(types.MediaTypeOCI1Layer, []byte("missing"))}, nil, "", nil)}
+				vhImage(vhDesc(types.MediaTypeOCI1ImageConfig, w.conf), []types.Descriptor{vhDesc(types.MediaTypeOCI1Layer, []byte("missing"))}, nil, "", nil),
+				// a reference whose digest string carries dot segments towards a blob of
+				// repository b (a digest inside a JSON body is just a string)
+				vhImage(types.Descriptor{MediaType: types.MediaTypeOCI1ImageConfig, Digest: digest.Digest("sha256:../../../b/blobs/sha256/" + w.dOther.Encoded()), Size: int64(len(w.other))}, []types.Descriptor{vhDesc(types.MediaTypeOCI1Layer, w.layer)}, nil, "", nil)}
 			r.body = docs[vh.Choice("doc", len(docs))]
 			cts := []string{types.MediaTypeOCI1Manifest, types.MediaTypeOCI1ManifestList, "", "text/plain"}
 			if ct := cts[vh.Choice("ctype", len(cts))]; ct != "" {
